@@ -2523,3 +2523,11 @@ M("C05-assignment-operator-lookup-misspelled", "C05", F_ST,
 M("C05-benign-operator-prefix-test-with-compare", "C05", "src/cppparser/cppInstanceIdentifier.cxx",
   "      _ident->get_simple_name().substr(0, 9) == \"operator \") {", "      _ident->get_simple_name().compare(0, 9, \"operator \") == 0) {",
   benign=True)
+# ---- R07.19 (F-C07k, repaired fa4d8b5)
+_HEX = "      while (isxdigit(peek())) {\n        val = (val << 4) | hex_val(get());\n      }\n"
+M("C07-hex-escape-cut-after-two-digits", "C07", F_PP, _HEX, "      if (isxdigit(peek())) {\n        val = (val << 4) | hex_val(get());\n      }\n",
+  expect="R07.19|scan_escape_sequence|hex_val(get())")
+M("C07-hex-escape-loop-on-a-counter", "C07", F_PP, _HEX, "      for (int n = 1; n < 2; ++n) {\n        val = (val << 4) | hex_val(get());\n      }\n",
+  expect="R07.19|scan_escape_sequence|hex_val(get())")
+M("C07-benign-hex-escape-as-for-loop", "C07", F_PP, _HEX, "      for (; isxdigit(peek()); ) {\n        val = (val << 4) | hex_val(get());\n      }\n",
+  benign=True)
